@@ -87,7 +87,7 @@ func TestVerifC16BridgeStartRace(t *testing.T) {
 		}
 		if l := snap.Leaked(scope, nil, 2*time.Second); len(l) > 0 {
 			sum := vk.FrameSummary(l)
-			run.Violation("C16:bridge|close-during-start|goroutine-left|"+c16LeakFn(sum[0]), map[string]any{"batch_start": done, "leaked": len(l), "frames": sum, "stack": l[0].Stack})
+			run.Violation("C16:bridge|close-during-start|goroutine-left|"+c16LeakFn(l[0]), map[string]any{"batch_start": done, "leaked": len(l), "frames": sum, "stack": l[0].Stack})
 			run.Count("leak_violations", 1) // after 3 the test stops: every further trial would wait the full poll interval
 		}
 		run.Count("leak_checks", 1)
